@@ -338,7 +338,7 @@ Definition expected_Write_conds : list string :=
   "resourceName == """"";
   "err != nil";
   "size > s.maxCasBlobSizeBytes";
-  "exists";
+  "exists && !(size == 0 && hash == emptySha256)";
   "cmp == casblob.Identity";
   "req.WriteOffset != 0";
   "cmp == casblob.Zstandard";
@@ -501,7 +501,7 @@ Proof. reflexivity. Qed.
 
 Definition expected_BatchUpdateBlobs_codes : list string :=
 [
-  "int32(gRPCErrCode(err, codes.InvalidArgument))";
+  "int32(codes.InvalidArgument)";
   "int32(gRPCErrCode(err, codes.Internal))";
   "int32(codes.InvalidArgument)";
   "int32(gRPCErrCode(err, codes.Internal))"
